@@ -149,7 +149,9 @@ def python_side_env():
                 operator=pymodel.OperatorShadow(), _validate_float=c_validate_float,
                 RangeTypes=(int, float, pymodel.IntShadow, pymodel.FloatShadow),
                 _validate_complex_number=c_validate_complex_number):
-        yield
+        import traits.trait_handlers as th
+        with shadow(th, isinstance=pymodel.m_isinstance):
+            yield
 
 
 def refresh_flags(it, pyobj):
